@@ -664,21 +664,34 @@ Section Bounded.
     rewrite A, B. auto.
   Qed.
 
-  Lemma write_compressed_bx rs os big st st' : write_compressed rs os big st = Ok st' -> bx st st'.
+  Lemma wc_one_bx rs os big st st' : wc_one fmt fmt_sd encS encB fenc c rs os big st = Ok st' -> bx st st'.
   Proof.
-    unfold Writer.write_compressed. destruct (strm st); [discriminate|].
-    destruct (negb (check_compressed rs os)); [discriminate|].
-    destruct os as [|o os]; [intros H; inversion H; subst; apply bx_refl|].
-    destruct (negb (use_objstm c)); [apply put_all_bx|].
-    intros H. binv H. destruct a as [sref st1]. binv Hk.
+    unfold wc_one. intros H. binv H. destruct a as [sref st1]. binv Hk.
     destruct (objstm_parts _ _ _) as [head body]. binv Hk0.
     destruct (strm a0) eqn:Es; [|discriminate].
     eapply bx_trans; [eapply alloc_bx; eassumption|].
     eapply bx_trans; [eapply set_comp_bx; [eassumption | destruct (alloc_next _ _ _ Hb) as [-> [-> _]]; lia]|].
     eapply bx_trans.
-    { destruct (record_all_same rs (o :: os) a) as [A B]. apply bx_same; eassumption. }
+    { destruct (record_all_same rs os a) as [A B]. apply bx_same; eassumption. }
     eapply bx_trans; [eapply open_stream_bx; eassumption|].
     eapply bx_trans; [|eapply close_stream_bx; eassumption]. apply bx_same; reflexivity.
+  Qed.
+
+  Lemma wc_chunks_bx fuel : forall rs os bigs st st',
+    wc_chunks fmt fmt_sd encS encB fenc c fuel rs os bigs st = Ok st' -> bx st st'.
+  Proof.
+    induction fuel as [|f IH]; intros rs os bigs st st' H; cbn [wc_chunks] in H; [discriminate|].
+    destruct (Nat.ltb _ _).
+    - binv H. eapply bx_trans; [eapply wc_one_bx; eassumption | eapply IH; eassumption].
+    - eapply wc_one_bx; eassumption.
+  Qed.
+
+  Lemma write_compressed_bx rs os bigs st st' : write_compressed rs os bigs st = Ok st' -> bx st st'.
+  Proof.
+    unfold Writer.write_compressed. destruct (strm st); [discriminate|].
+    destruct (negb (check_compressed rs os)); [discriminate|].
+    destruct os as [|o os]; [intros H; inversion H; subst; apply bx_refl|].
+    destruct (negb (use_objstm c)); [apply put_all_bx | apply wc_chunks_bx].
   Qed.
 
   Lemma write_xref_table_bx tr st st' : write_xref_table tr st = Ok st' -> bx st st'.
